@@ -304,6 +304,14 @@ def igs_special(table):
          'G#m 0,0:m 1,99999:m 2,5:m 3,5:m 4,5:', 'G#p 0,0:p 79,24:p 99999,99999:', 'G#r 0:r 1:r 2:', 'G#v 0:v 1:v 2:', 'G#w 0:w 1:w 2:', 'G#L 0,0,10,10:L_\n 10,10,20,\n20:', 'G#L 0,0,\n10,10:',
          'G#L 0 , 0 , 10 , 10 :', 'G#L>0,0,10,10:', 'G#L 0,0,10,10', 'G#L -1,-1,10,10:', 'G#L 0,,10:', 'G#L ,:', 'G#L:', 'G#:', 'G#L 2147483647,2147483648,99999999999,1:', 'G#W 2147483648,1,x@',
          'G#L 0,0,5,5:\nG#L 5,5,9,9:\n', 'G#L 0,0,5,5:L 5,5,9,9:', 'G#L 0,0,5,5:x', 'text G#L 0,0,5,5:text G', 'G#I 0:\rG#s 0:', 'GG#s 0:', 'G#G#s 0:']
+    # a command or loop abandoned at every possible point, then (in the SAME stream, on the parser state the abandoned
+    # one left behind) a well-formed loop and a well-formed command: stale tokenizer/loop state must not leak
+    LOOP = '&0,3,1,0,L,4,0,0,x,0:'
+    CMDS = ['L 0,0,5,5:', 'B 0,0,9,9,1:', LOOP, '&0,2,1,0,P,2,x,y:']
+    for whole in CMDS:
+        for cut in range(1, len(whole)):
+            for term in ('\nG#', '>\nG#', 'q', ':', '@'):
+                S.append('G#' + whole[:cut] + term + LOOP + 'L 1,1,4,4:' + '&0,1,1,0,B,5,0,0,x,y,1:')
     return S
 
 def gen_igs_cmd(rng, table):
